@@ -257,36 +257,132 @@ def loop_shape(it, rep, root, box, E, NK, where):
 
 
 def r165(P, rep):
-    rep.rule('R16.5', 'include/stdatomic.h maps every generic read-modify-write of C11 7.17.7 onto a compound assignment on *(obj) or one of the two builtins; atomic_fetch_* must yield the value before the operation', floor=14)
+    """include/stdatomic.h: every generic read-modify-write is expanded (plain token substitution) and evaluated by the mini evaluator
+    (sa/lib_minic.py) on a shared object that other threads change between any two accesses of this thread: op= on the shared object is one
+    indivisible update (that is what R16.1/R16.2 establish for the compiler), __builtin_compare_and_swap compares, and on failure writes the
+    observed value back through its second operand. Required for every interference schedule: the object ends up as (value just before the
+    update) op val, and atomic_fetch_* yields exactly that value before the update (C11 7.17.7.5)"""
+    from ..lib_minic import parse_macros, expand, tokenize, Parser, Eval, Cell, NotInSubset
+    rep.rule('R16.5', 'include/stdatomic.h maps every generic read-modify-write of C11 7.17.7 onto an indivisible update (compound assignment on *(obj), or a compare-exchange retry loop that re-reads through the failed exchange); atomic_fetch_* yield the value held immediately before their own update, under any interference between their steps', floor=14)
     path = P.header('include/stdatomic.h')
-    text = open(path).read().replace('\\\n', ' ')
-    defs = {}
-    for m in re.finditer(r'^[ \t]*#[ \t]*define[ \t]+(\w+)\(([^)]*)\)[ \t]*(.*)$', text, re.M):
-        defs[m.group(1)] = ([p.strip() for p in m.group(2).split(',')], m.group(3).strip())
+    text = open(path).read()
     where = 'include/stdatomic.h'
-    ops = {'add': '+=', 'sub': '-=', 'or': '|=', 'xor': '^=', 'and': '&='}
-    for name, op in ops.items():
-        for suffix in ('', '_explicit'):
+    try:
+        macros = parse_macros(text)
+    except NotInSubset as e:
+        rep.undecided('R16.5', 'stdatomic.h:macros', 'header macros not parseable: %s' % e, where=where); return
+    M = (1 << 64) - 1          # the object is modelled as a 64-bit unsigned atomic, the operand as an `unsigned int` value
+
+    class U32(int):
+        """an operand of type unsigned int: unary operators wrap at 32 bits, as they do before the value is converted to the object's type"""
+        def __neg__(self):
+            return U32((-int(self)) & 0xffffffff)
+
+        def __invert__(self):
+            return U32((~int(self)) & 0xffffffff)
+    OPS = {'add': lambda a, b: (a + b) & M, 'sub': lambda a, b: (a - b) & M, 'or': lambda a, b: a | b, 'xor': lambda a, b: a ^ b, 'and': lambda a, b: a & b}
+    HOST = {'+': 'add', '-': 'sub', '|': 'or', '^': 'xor', '&': 'and'}
+
+    class Shared(Cell):
+        """the atomic object; `inject` = values other threads store right before this thread's k-th access"""
+        def __init__(self, v, inject):
+            Cell.__init__(self, v, 'obj'); self.inject = dict(inject); self.n = 0; self.updates = []
+
+        def _tick(self):
+            if self.n in self.inject:
+                self.v = self.inject[self.n]
+            self.n += 1
+
+        def get(self):
+            self._tick(); return self.v
+
+        def set(self, v):
+            self._tick(); self.updates.append((self.v, v, 'plain-store')); self.v = v
+
+        def rmw(self, op, operand):
+            self._tick(); old = self.v; self.v = OPS[HOST[op]](old, operand & M); self.updates.append((old, self.v, 'rmw')); return self.v
+
+        def cas(self, expected_cell, new):
+            self._tick()
+            if self.v == (expected_cell.get() & M):
+                old = self.v; self.v = new & M; self.updates.append((old, self.v, 'cas')); return 1
+            expected_cell.set(self.v); return 0
+
+    def run(mname, nargs, init, val, inject):
+        obj = Shared(init, inject)
+        def b_cas(p_, exp, new):
+            if not isinstance(p_, Shared) or not isinstance(exp, Cell):
+                raise NotInSubset('compare-exchange operands')
+            return p_.cas(exp, new)
+        def b_xchg(p_, new):
+            p_._tick(); old = p_.v; p_.v = new & M; p_.updates.append((old, p_.v, 'xchg')); return old
+        src = '%s(P, V%s)' % (mname, ', ORDER' if nargs == 3 else '')
+        toks = expand(tokenize(src), macros)
+        ps = Parser(toks + [('p', ';')], typenames=())
+        e = ps.expr()
+        ev = Eval({}, builtins={'__builtin_compare_and_swap': b_cas, '__builtin_atomic_exchange': b_xchg})
+        res = ev.ev(e, {'P': Cell(obj, 'P'), 'V': val, 'ORDER': 5})
+        return res, obj
+
+    SCHEDULES = [{}, {0: 7}, {1: 9}, {2: 11}, {1: 9, 2: 13}, {0: 3, 1: 9, 2: 13, 3: 21}, {1: 0xfffffffffffffff0, 3: 5}]
+    for name in ('add', 'sub', 'or', 'xor', 'and'):
+        for suffix, nargs in (('', 2), ('_explicit', 3)):
             mname = 'atomic_fetch_%s%s' % (name, suffix)
-            d = defs.get(mname)
-            if d is None:
+            if mname not in macros:
                 rep.ob('R16.5', 'stdatomic.h:%s:defined' % mname, False, '%s is not defined' % mname, where=where); continue
-            params, body = d
-            b = re.sub(r'\s+', '', body)
-            obj, val = params[0], params[1] if len(params) > 1 else '?'
-            rmw = '(*(%s)%s(%s))' % (obj, op, val)
-            is_rmw = rmw in b
-            rep.ob('R16.5', 'stdatomic.h:%s:is-atomic-rmw' % mname, is_rmw or '__builtin' in b, '%s expands to `%s`, which is not a compound assignment on *(%s) with operator %s (nor a builtin): the update is not an indivisible read-modify-write' % (mname, body, obj, op), where=where)
-            if is_rmw:
-                yields_new = b == rmw
-                rep.ob('R16.5', 'stdatomic.h:%s:yields-old-value%s' % (mname, ':yields-new-value' if yields_new else ''), not yields_new,
-                       '%s expands to `%s`, whose value is the NEW value; C11 7.17.7.5p3: atomic_fetch_* return the value held before the operation' % (mname, body), where=where)
-    for mname, builtin in (('atomic_exchange', '__builtin_atomic_exchange'), ('atomic_exchange_explicit', '__builtin_atomic_exchange'),
-                           ('atomic_compare_exchange_strong', '__builtin_compare_and_swap'), ('atomic_compare_exchange_weak', '__builtin_compare_and_swap'),
-                           ('atomic_flag_test_and_set', 'atomic_exchange')):
-        d = defs.get(mname)
-        ok = d is not None and builtin in d[1] and all(('(%s)' % p) in re.sub(r'\s+', '', d[1]) for p in d[0][:2 if 'exchange(' in mname or 'flag' in mname else 3] if p and p != 'order')
-        rep.ob('R16.5', 'stdatomic.h:%s:maps-to-%s' % (mname, builtin), ok, '%s does not forward its operands to %s (%r)' % (mname, builtin, d), where=where)
+            bad = None
+            try:
+                for init, val in ((5, U32(1)), (0xf0, U32(0x3c)), (0x100000000, U32(0xffffffff))):
+                    for inj in SCHEDULES:
+                        res, obj = run(mname, nargs, init, val, inj)
+                        ups = [u for u in obj.updates]
+                        if len(ups) != 1:
+                            bad = bad or ('updates', 'performs %d updates of the object (%r), exactly one indivisible update expected' % (len(ups), ups)); continue
+                        old, new, how = ups[0]
+                        if how == 'plain-store':
+                            bad = bad or ('not-indivisible', 'updates the object with a plain store computed from an earlier read: an update by another thread in between is lost'); continue
+                        if new != OPS[name](old, val & M):
+                            bad = bad or ('wrong-update', 'with the object holding %d right before the update and operand %d the object becomes %d, expected %d' % (old, val, new, OPS[name](old, val & M))); continue
+                        if res is None or (res & M) != old:
+                            tag = 'yields-new-value' if res is not None and (res & M) == new else 'yields-other-value'
+                            bad = bad or (tag, 'yields %r; the object held %d immediately before the update (and %d after): C11 7.17.7.5p3 atomic_fetch_* return the value held before the operation%s'
+                                          % (res, old, new, '' if not inj else ' (schedule: other threads store %r before this thread\'s accesses)' % (inj,)))
+            except NotInSubset as e:
+                rep.undecided('R16.5', 'stdatomic.h:%s' % mname, 'macro outside the evaluated C subset: %s' % e, where=where); continue
+            key = 'stdatomic.h:%s:yields-old-value' % mname
+            rep.ob('R16.5', key if not bad else key + ':' + bad[0], bad is None, '%s %s' % (mname, bad[1] if bad else ''), where=where)
+    for mname, builtin, nargs in (('atomic_exchange', 'xchg', 2), ('atomic_exchange_explicit', 'xchg', 3), ('atomic_flag_test_and_set', 'xchg', 1)):
+        if mname not in macros:
+            rep.ob('R16.5', 'stdatomic.h:%s:defined' % mname, False, '%s is not defined' % mname, where=where); continue
+        try:
+            obj = Shared(5, {0: 8})
+            def b_xchg(p_, new, obj=obj):
+                p_._tick(); old = p_.v; p_.v = new & M; p_.updates.append((old, p_.v, 'xchg')); return old
+            src = {1: '%s(P)', 2: '%s(P, V)', 3: '%s(P, V, ORDER)'}[nargs] % mname
+            e = Parser(expand(tokenize(src), macros) + [('p', ';')]).expr()
+            res = Eval({}, builtins={'__builtin_atomic_exchange': b_xchg}).ev(e, {'P': Cell(obj, 'P'), 'V': 77, 'ORDER': 5})
+            want_new = 1 if nargs == 1 else 77
+            ok = len(obj.updates) == 1 and obj.updates[0][2] == 'xchg' and obj.updates[0][1] == want_new and res == obj.updates[0][0]
+            rep.ob('R16.5', 'stdatomic.h:%s:maps-to-__builtin_atomic_exchange' % mname, ok, '%s does not perform one exchange that stores its operand and yields the previous value (updates %r, result %r)' % (mname, obj.updates, res), where=where)
+        except NotInSubset as e:
+            rep.undecided('R16.5', 'stdatomic.h:%s' % mname, 'macro outside the evaluated C subset: %s' % e, where=where)
+    for mname in ('atomic_compare_exchange_strong', 'atomic_compare_exchange_weak'):
+        if mname not in macros:
+            rep.ob('R16.5', 'stdatomic.h:%s:defined' % mname, False, '%s is not defined' % mname, where=where); continue
+        try:
+            outs = []
+            for init, expv in ((5, 5), (5, 6)):
+                obj = Shared(init, {})
+                exp = Cell(expv, 'expected')
+                def b_cas(p_, e_, new):
+                    return p_.cas(e_, new)
+                e = Parser(expand(tokenize('%s(P, E, N)' % mname), macros) + [('p', ';')]).expr()
+                res = Eval({}, builtins={'__builtin_compare_and_swap': b_cas}).ev(e, {'P': Cell(obj, 'P'), 'E': Cell(exp, 'E'), 'N': 42})
+                outs.append((res, obj.v, exp.v))
+            ok = outs == [(1, 42, 5), (0, 5, 5)]
+            rep.ob('R16.5', 'stdatomic.h:%s:maps-to-__builtin_compare_and_swap' % mname, ok, '%s: (result, object, expected) is %r for an equal and an unequal expected value; prescribed [(1, 42, 5), (0, 5, 5)]' % (mname, outs), where=where)
+        except NotInSubset as e:
+            rep.undecided('R16.5', 'stdatomic.h:%s' % mname, 'macro outside the evaluated C subset: %s' % e, where=where)
 
 
 def r166(P, rep):
